@@ -20,6 +20,9 @@ type Sim struct {
 	CompareUTXOEvery int // 1 = after every delivery
 	deliveries       int
 	Quiet            bool
+	// AfterOffer, when set, runs after every successful Offer (extra oracle of the monitor using the Sim);
+	// returning false makes Offer report failure.
+	AfterOffer func(b *refchain.Block) bool
 }
 
 func NewSim(run *vlib.Run, r *vlib.Rand, p refchain.Params, dir string, o NodeOpts) *Sim {
@@ -84,6 +87,9 @@ func (s *Sim) OfferRaw(b *refchain.Block, raw []byte, family string) (refchain.R
 	if rr.Reason != "" {
 		s.Run.Distinct("reject_reasons", rr.Reason)
 		s.Run.Inc("reason/" + rr.Reason)
+	}
+	if ok && s.AfterOffer != nil && !s.AfterOffer(b) {
+		ok = false
 	}
 	return rr, gr, ok
 }
